@@ -28,15 +28,16 @@ TPaths == DOMAIN Trace[1].paths
 TSorted == Trace[1].sorted
 
 VARIABLES l, tid,
-          clean,   \* file -> last output hash while nothing was built or hinted since ("" = dirty)
-          lastfrag \* <<cell, file>> -> same for fragment renders
-tvars == <<vars, l, tid, clean, lastfrag>>
+          clean,    \* file -> last output hash while nothing was built or hinted since ("" = dirty)
+          lastfrag, \* <<cell, file>> -> same for fragment renders
+          lastplain \* cell -> same for Render / GoString (reset by every build call)
+tvars == <<vars, l, tid, clean, lastfrag, lastplain>>
 E == Trace[l]
 SeqSet(s) == {s[i] : i \in DOMAIN s}
 Report(prop, key) == CSVWrite("%1$s", <<ToJson([prop |-> prop, trace |-> tid, line |-> l, key |-> key])>>, VFile)
 TableFn(t) == [p \in {t[i].path : i \in DOMAIN t} |-> LET i == CHOOSE i \in DOMAIN t : t[i].path = p IN Def(t[i].name, t[i].alias)]
 
-TInit == /\ l = 2 /\ tid = 0 /\ clean = <<>> /\ lastfrag = <<>>
+TInit == /\ l = 2 /\ tid = 0 /\ clean = <<>> /\ lastfrag = <<>> /\ lastplain = <<>>
          /\ cells = <<>> /\ files = <<>> /\ ntok = 0 /\ obs = NoObs /\ bound = <<>> /\ nops = 0 /\ hist = <<>>
 
 Consume(e) == l <= Len(Trace) /\ E.ev = e /\ l' = l + 1
@@ -48,7 +49,7 @@ FilesEv ==
   /\ files' = [i \in DOMAIN E.files |-> [local |-> E.files[i].local, prefix |-> E.files[i].prefix, noformat |-> E.files[i].noformat,
                                            hints |-> <<>>, imps |-> <<>>, body |-> <<>>, anons |-> {}, claims |-> <<>>]]
   /\ bound' = [i \in DOMAIN E.files |-> <<>>]
-  /\ clean' = [i \in DOMAIN E.files |-> ""] /\ lastfrag' = <<>>
+  /\ clean' = [i \in DOMAIN E.files |-> ""] /\ lastfrag' = <<>> /\ lastplain' = <<>>
 
 \* build and configuration calls: the specification's own action with the recorded arguments
 Dirty(fs) == /\ clean' = [i \in DOMAIN clean |-> IF i \in fs THEN "" ELSE clean[i]]
@@ -59,13 +60,15 @@ BuildEv ==
   /\ \/ E.ev = "NewVar" /\ NewVar /\ Fresh = E.n
      \/ E.ev = "NewId" /\ NewId /\ Fresh = E.n
      \/ E.ev = "NewQual" /\ NewQual(E.p)
+     \/ E.ev = "NewNull" /\ NewNull
      \/ E.ev = "AppId" /\ AppId(E.c) /\ Fresh = E.n
      \/ E.ev = "AppDot" /\ AppDot(E.c) /\ Fresh = E.n
      \/ E.ev = "AppQual" /\ AppQual(E.c, E.p)
-     \/ E.ev = "AppGroup" /\ AppGroup(E.c, E.n, E.refs)
+     \/ E.ev = "AppGroup" /\ AppGroup(E.c, E.n, E.refs, E.d)
      \/ E.ev = "AddRef" /\ AddRef(E.c, E.d)
      \/ E.ev = "Clone" /\ CloneCell(E.c)
   /\ Dirty(AllFiles)       \* conservative: any change of the heap may change what any File renders
+  /\ lastplain' = <<>>
 FileEv ==
   /\ l <= Len(Trace) /\ l' = l + 1 /\ UNCHANGED tid
   /\ \/ E.ev = "FileAdd" /\ FileAdd(E.f, E.c)
@@ -73,6 +76,7 @@ FileEv ==
      \/ E.ev = "ImportAlias" /\ ImportAlias(E.f, E.p, E.n)
      \/ E.ev = "Anon" /\ DoAnon(E.f, E.p)
   /\ Dirty({E.f})          \* a call on one File says nothing about the others (C09)
+  /\ UNCHANGED lastplain    \* ... nor about Render / GoString, which use a File of their own
 
 (* ------------------------------ monitors (C) ----------------------------- *)
 \* C20 / C08 at the level of tokens: every identifier appended directly to a statement that the observed value reaches
@@ -128,7 +132,7 @@ RenderEv ==
         /\ bound' = [bound EXCEPT ![f] = Bind(@, {<<x.path, x.qual>> : x \in refs}, bare)]
         /\ clean' = [clean EXCEPT ![f] = E.out]
         /\ lastfrag' = [k \in {x \in DOMAIN lastfrag : x[2] # f} |-> lastfrag[k]]     \* the File's table may have grown
-  /\ nops' = nops + 1 /\ UNCHANGED <<cells, ntok, obs, hist>>
+  /\ nops' = nops + 1 /\ UNCHANGED <<cells, ntok, obs, hist, lastplain>>
 
 FragEv ==
   /\ Consume("Frag") /\ UNCHANGED tid
@@ -148,7 +152,7 @@ FragEv ==
         /\ clean' = [clean EXCEPT ![f] = IF r[2] = files[f].imps /\ obsT = files[f].imps THEN @ ELSE ""]
         /\ lastfrag' = [x \in ({y \in DOMAIN lastfrag : y[2] # f \/ (r[2] = files[f].imps /\ obsT = files[f].imps)} \cup {k}) |->
                           IF x = k THEN E.out ELSE lastfrag[x]]
-  /\ nops' = nops + 1 /\ UNCHANGED <<cells, ntok, obs, hist>>
+  /\ nops' = nops + 1 /\ UNCHANGED <<cells, ntok, obs, hist, lastplain>>
 
 \* s.Render(w): the implicit File is fresh; the twin is s.RenderWithFile(w, NewFile("")) (C14: the entry points agree)
 PlainEv ==
@@ -160,6 +164,10 @@ PlainEv ==
         /\ (E.status # "nil" /\ E.nbytes # 0) => Report("C10", "a failed render wrote to the writer (system tier)")
         /\ (~E.twin) => Report("C14", "Render and RenderWithFile with a fresh File disagree (system tier)")
         /\ (~E.twin2) => Report("C14", "GoString and Render disagree (system tier)")
+        \* the same statement, nothing built in between (whatever was rendered, successfully or not, meanwhile): same bytes
+        /\ (E.c \in DOMAIN lastplain /\ lastplain[E.c] # E.out) => (Report("C07", "the same statement renders different bytes later in the process (system tier)")
+                                                                    /\ Report("C08", "system: repeat of Render / GoString"))
+        /\ lastplain' = Put(lastplain, E.c, E.out)
         /\ (E.status = "nil") => TokensKept({E.c}, E.toks)
   /\ nops' = nops + 1 /\ UNCHANGED <<cells, files, ntok, obs, bound, hist, clean, lastfrag>>
 
